@@ -28,6 +28,8 @@ QUERIES = [
     ("insert into c select x, y from a where x is not null", "c"), ("insert into c select a.x, b.z from a join b on a.x = b.x", "c"),
     ("delete from a where y > 1", "a"), ("delete from a where x in (select x from b)", "a"), ("delete from b", "b"),
     ("insert into c values (1, 2), (3, 4)", "c"),
+    # the profiling wrapper must not swallow what fails below it
+    ("explain analyze select x, y from a where y > 1", None), ("explain analyze insert into c select x, y from a where x is not null", "c"),
 ]
 
 
@@ -81,6 +83,8 @@ def rows_of(x, q=""):
     if "ok" not in x:
         return None
     rows = [r for ch in x["ok"] for r in ch["rows"]]
+    if q.startswith("explain analyze"):
+        rows = [["profile"] for r in rows]          # the profile carries timings
     if " over (" in q:
         rows = [r[:1] for r in rows]
     if " limit " in q and "order by" not in q:
@@ -130,8 +134,9 @@ def run(R, only=None):
             pass
         b["early"] = " limit " in b["q"] and "order by" not in b["q"] or "limit" in (o[n0].get("plan") or "") and "topn" not in (o[n0].get("plan") or "")
         # (the INSERT / DELETE operator hands out its single item, the row count, AFTER it has committed: a fault placed on that
-        #  item by the hook does not stand for any failure the operator can have; its inputs are what is faulted)
-        points = [(i, k) for i, (nm, cnt) in enumerate(obs["ops"]) if nm not in ("insert", "delete", "copy_to") for k in range(cnt + 1)]
+        #  item by the hook does not stand for any failure the operator can have; its inputs are what is faulted; likewise the profile
+        #  that EXPLAIN ANALYZE hands out after its input has finished)
+        points = [(i, k) for i, (nm, cnt) in enumerate(obs["ops"]) if nm not in ("insert", "delete", "copy_to", "analyze") for k in range(cnt + 1)]
         if R.tier == "quick" and len(points) > 14 and not b["opts"]:
             late = [p for p in points if p[1] >= 2]
             points = rng.sample(points, 10) + rng.sample(late, min(4, len(late)))
